@@ -266,7 +266,8 @@ def py_eval(node_or_src, ds, extra=None) -> Any:
         node = ast.parse(node_or_src.strip(), mode="eval").body
     else:
         node = node_or_src
-    node = _SeqLiterals().visit(__import__("copy").deepcopy(node))
+    caps = _Captured()
+    node = _SeqLiterals().visit(__import__("copy").deepcopy(caps.visit(_copy_nodes(node))))
     import warnings
 
     with warnings.catch_warnings():
@@ -278,10 +279,37 @@ def py_eval(node_or_src, ds, extra=None) -> Any:
     env["_AttrDict"] = AttrDict
     if extra:
         env.update(extra)
+    env.update(caps.env)
     return eval(code, env)
 
 
 import ast as _ast  # noqa: E402
+
+
+def _copy_nodes(n):
+    "new node and list objects; values held by Constant nodes (captured objects) by reference"
+    if isinstance(n, _ast.AST):
+        new = __import__("copy").copy(n)
+        for f, v in _ast.iter_fields(n):
+            setattr(new, f, _copy_nodes(v))
+        return new
+    if isinstance(n, list):
+        return [_copy_nodes(x) for x in n]
+    return n
+
+
+class _Captured(_ast.NodeTransformer):
+    "a captured object that is no literal (a module) cannot be compiled as a Constant: it is bound to a name instead"
+
+    def __init__(self):
+        self.env = {}
+
+    def visit_Constant(self, node):
+        if isinstance(node.value, __import__("types").ModuleType):
+            k = f"_captured_{len(self.env)}"
+            self.env[k] = node.value
+            return _ast.Name(k, _ast.Load())
+        return node
 
 
 class _SeqLiterals(_ast.NodeTransformer):
